@@ -154,6 +154,51 @@ func genTyped(t *Tape) *Config {
 		}
 		cfg.NS = append(cfg.NS, ga, gb, gc)
 	}
+	// One program in three: a relation typed as a union of two to four subject
+	// sets that several permissions traverse, in a class that comes first or last
+	// in the document (every traversed alternative is one more thing the type
+	// checker has to look up, in whatever order it does its look-ups); and one
+	// program in three writes `permits` before `related` in every class.
+	if t.Bool(1, 3) {
+		// (the type checker follows a subject-set type into the types of its relation:
+		// those have to declare the traversed relation too - HU does)
+		user := "HU"
+		k := t.Range(2, 4)
+		var alts []TypeRef
+		groups := []*NSDef{{Name: "HU", Rels: []*RelDef{{Name: "members", Types: []TypeRef{{NS: "HU"}}}}}}
+		for i := 0; i < k; i++ {
+			name := fmt.Sprintf("H%c", 'A'+i)
+			groups = append(groups, &NSDef{Name: name, Rels: []*RelDef{{Name: "members", Types: []TypeRef{{NS: user}}}}})
+			alts = append(alts, TypeRef{NS: name, Rel: "members"})
+		}
+		trav := func() *Expr { return &Expr{Kind: ExTraverse, Rel: "shared", Computed: "members"} }
+		hx := &NSDef{Name: "HX", Rels: []*RelDef{
+			{Name: "shared", Types: alts},
+			{Name: "owners", Types: []TypeRef{{NS: user}}},
+			{Name: "view", Rewrite: &Expr{Kind: ExOr, Children: []*Expr{trav(), {Kind: ExIncludes, Rel: "owners"}}}},
+			{Name: "edit", Rewrite: &Expr{Kind: ExAnd, Children: []*Expr{trav(), {Kind: ExIncludes, Rel: "owners"}}}},
+			{Name: "del", Rewrite: trav()}}}
+		if t.Bool(1, 2) {
+			cfg.NS = append(append([]*NSDef{hx}, cfg.NS...), groups...)
+		} else {
+			cfg.NS = append(append(cfg.NS, groups...), hx)
+		}
+	}
+	cfg.PermitsFirst = t.Bool(1, 3)
+	if cfg.PermitsFirst {
+		// the model lists the members in document order (a name resolves to its first declaration)
+		for _, n := range cfg.NS {
+			var perms, plain []*RelDef
+			for _, r := range n.Rels {
+				if r.Rewrite != nil {
+					perms = append(perms, r)
+				} else {
+					plain = append(plain, r)
+				}
+			}
+			n.Rels = append(perms, plain...)
+		}
+	}
 	return cfg
 }
 
